@@ -39,3 +39,74 @@ Example parse_print_example :
   wf e = true /\ parse_top current_shape (print e) = Some e.
 Proof. vm_compute. split; reflexivity. Qed.
 Print Assumptions parse_print_example.
+
+(* ---- the wider model (ParseFull.v): definitions, statements, expressions ----------------------
+   PARTIAL.  What IS covered (every tree t of the type `item` with wf_item t = true, any nesting):
+     definitions  fun / method (optional `public`, type parameters, parameters with optional type hints,
+                  optional return hint, body), test, enum (variants with optional payload hint), struct
+                  (fields with hints), import (with optional `as name`), toplevel expression, toplevel block;
+     statements   let (symbol or destructuring destination, optional hint), `x = e`, `x += e`, `x -= e`,
+                  return with and without a value -- these four in statement position only (elements of a
+                  block, toplevel expression) -- and if / else, while, for-in, break, continue, match (cases
+                  `V => { }` and `V(dest) => { }`), assert, which may also be nested inside expressions;
+     expressions  integer (incl. negative), float and string literal tokens, variables, all 21 infix operators
+                  (left-nested), explicit parentheses, tuples of any length (`()`, `(a,)`, `(a, b)`), lists,
+                  calls `f(a, b)` (the parenthesis touches the callee), method calls `x.m(a)`, field access
+                  `x.f`, closures `fun(x, y) { ... }`;
+     type hints   `Name`, `Name<H, ...>`, `(H, ...)`.
+   wf_item asks for what the grammar needs to express a tree WITHOUT inventing parentheses: the right operand of
+   an operator, a callee and a receiver are not operator applications; a callee is not a field access (that text
+   is a method call); let/assignment/return only in statement position; no repeated name (other than `_`) in a
+   parameter list or destructuring destination (the parser reports those); a toplevel expression does not start
+   with the keyword `fun` (read as a definition).
+   What is NOT covered (the model answers None): `Dict[...]` literals, struct literals `Foo{...}`, try/catch,
+   `::`, doc comments, every error-recovery path of the parser; the lexer (tokens are abstract: kind + spacing,
+   see Lex.v for the lexer) -- these are exercised by the generator-based search of tools/props/C33.py.
+   `current_shape` and the facts below are REGENERATED from src/parser.rs on every run. *)
+From Garden Require Import ParseFull ParseFullProps ParseFullTie.
+
+Theorem full_facts :
+  method_arm_recognised = true /\ method_paren_touches = true /\ call_paren_touches = true /\
+  return_needs_same_line = true /\ assignment_decided_by_second_token = true /\ keyword_count = 22.
+Proof. exact full_facts_lemma. Qed.
+Print Assumptions full_facts.
+
+Theorem parse_print_full_partial : forall t, wf_item t = true ->
+  exists f0, forall f, f0 <= f -> parse_item current_shape method_paren_touches f (print_item t) = Some (t, []).
+Proof. exact parse_print_full_current. Qed.
+Print Assumptions parse_print_full_partial.
+
+(* the expression-chain fragment of parse_print_partial is inside the new domain *)
+Theorem old_fragment_wf : forall e, ParseExpr.wf e = true -> ParseFull.wf false (emb e) = true.
+Proof. exact emb_wf. Qed.
+Print Assumptions old_fragment_wf.
+
+(* before the fix "a method call's parenthesis must touch the method name" the round trip FAILED on a block of
+   two statements, `v1.v2` and `(v3)`: it came back as the one statement `v1.v2(v3)` *)
+Theorem method_space_refuted :
+  let t := IBlock [EDot (EVar 1) 2; EParen (EVar 3)] in
+  wf_item t = true /\
+  parse_item good_shape false 40 (print_item t) = Some (IBlock [EMethod (EVar 1) 2 [EVar 3]], []) /\
+  parse_item good_shape true 40 (print_item t) = Some (t, []).
+Proof. exact method_space_refuted_lemma. Qed.
+Print Assumptions method_space_refuted.
+
+(* non-vacuity: a definition that uses most of the grammar is in the domain and round-trips by computation *)
+Example parse_print_full_example :
+  let body : block :=
+    [ELet (DSym 1) (Some (HName 5 [HName 6 []; HTuple [HName 7 []; HName 8 []]]))
+          (EBin KAdd (ECall (EVar 2) [EInt 1; EStr 3]) (EMethod (EVar 4) 5 [ETuple [EInt 1]; ETuple [EInt 1; EInt 2]; ETuple []]));
+     EIf (EDot (EVar 1) 2) [EReturn None] (Some [EAssign 3 (EList [EInt 1; EList []])]);
+     EWhile (EParen (EBin KLessThan (EVar 1) (EInt (-5)))) [EBreak; EContinue; EAssignUpdate true 1 (EInt 1)];
+     EFor (DDestructure [1; 2]) (EVar 3) [EAssert (EVar 1)];
+     EMatch (EVar 1) [(5, Some (DSym 1), [EVar 1]); (6, None, []); (0, None, [EReturn (Some (EInt 1))])];
+     ELet (DSym 2) None (EIf (EVar 1) [EInt 1] (Some [EInt 2]));
+     EFunLit [(1, None); (2, Some (HName 9 []))] None [EVar 1];
+     ECall (EFunLit [] (Some (HName 9 [])) []) [];
+     EDot (EVar 1) 2; EParen (EVar 3)]%N in
+  let t := IFun true 10 [11; 12]%N [(1, Some (HName 5 [])); (2, None)]%N (Some (HName 5 [])) body in
+  wf_item t = true /\ parse_item current_shape method_paren_touches 60 (print_item t) = Some (t, []) /\
+  wf_item (IEnum true 10 [11]%N [(1, None); (2, Some (HName 5 [HName 6 []]))]%N) = true /\
+  wf_item (IExpr (EFunLit [] None [])) = false.
+Proof. vm_compute. repeat split; reflexivity. Qed.
+Print Assumptions parse_print_full_example.
